@@ -36,7 +36,7 @@ RULE = ("tables: EVERY valid segmentation of <=2 chromosomes of length <=6 (quic
         "large-coordinate uniform tables (bin size up to 2^20, file coordinates < 2^31, unit level up to 2^40). Inside a table "
         "every in-bounds (chrom,s,e) is queried (large tables: all bin edges +-1 and a seeded sample); DataFrame-returning "
         "fetches and string forms run on every region of `full` tables (one chromosome, or both lengths <=3) and on every `stride`-th "
-        "region (stride 2 for lengths <=4, else 8; whole-chromosome forms always) of the others; non-trivial = some chromosome with >=2 bins; distinct by canonical JSON")
+        "region (stride 2 for lengths <=4, else 12; the bare chromosome name always) of the others; non-trivial = some chromosome with >=2 bins; distinct by canonical JSON")
 EXHAUSTIVE = {"quick": True, "thorough": True}
 TRUSTED = ["numpy searchsorted(left/right) on a sorted array == countP (<) / countP (<=) (`ssLeft`/`ssRight`); h5py dataset "
            "slicing; pandas groupby().get_group / iloc keep row labels",
@@ -166,13 +166,17 @@ def _table(case):
             obs.append(dict(k=kind, c=c, s=s, e=e, **kw))
             meta.append({"region": [c, s, e], "form": form, "api": api, "impl": shown})
 
+        problems = []  # relational inconsistencies / raises: reported after the L0 verdicts on what was observed
         try:
             for idx, (c, s, e) in enumerate(regions):
                 name, L = names[c], lens[c]
                 whole = s == 0 and e == L
-                heavy = whole or (idx + salt) % stride == 0
-                forms = _forms(name, s, e, L) if heavy else [f for f in _forms(name, s, e, L) if f[0] in ("tuple", "open")]
+                picked = (idx + salt) % stride == 0
+                forms = _forms(name, s, e, L) if (picked or whole) else [f for f in _forms(name, s, e, L) if f[0] in ("tuple", "open")]
                 for form, reg in forms:
+                    # every access path for the stride-selected regions and for the bare chromosome name; the other
+                    # forms / regions go through Cooler.extent (+ the two bin-frame fetchers for the tuple form)
+                    heavy = picked or form == "bare"
                     cur = {"region": [c, s, e], "form": form, "given_as": repr(reg)}
                     lo, hi = impl(clr.extent, reg)
                     lo, hi = int(lo), int(hi)
@@ -180,13 +184,14 @@ def _table(case):
                     rec("ext", c, s, e, form, "Cooler.extent", [lo, hi], lo=lo, hi=hi)
                     if form == "tuple":
                         extents[idx] = (lo, hi)
-                    if form == "tuple" or heavy:
+                    if heavy or (form == "tuple" and e == s + 1):
                         o = int(impl(clr.offset, reg))
                         nq += 1
                         rec("off", c, s, e, form, "Cooler.offset", o, o=o)
                         if o != lo:
-                            return {"mismatch": True, **cur, "api": "Cooler.offset", "impl": o, "extent": [lo, hi],
-                                    "note": "offset(region) differs from extent(region)[0]"}
+                            problems.append({"mismatch": True, **cur, "api": "Cooler.offset", "impl": o, "extent": [lo, hi],
+                                    "note": "offset(region) differs from extent(region)[0]"})
+                    if form == "tuple" or heavy:
                         g = impl(gseg.fetch, reg)
                         nq += 1
                         rec("ids", c, s, e, form, "GenomeSegmentation.fetch", _ids(g), ids=_ids(g))
@@ -195,8 +200,8 @@ def _table(case):
                         rec("ids", c, s, e, form, "bedslice", _ids(g2), ids=_ids(g2))
                         for fr, api in ((g, "GenomeSegmentation.fetch"), (g2, "bedslice")):
                             if _spans(fr) != [bins[k][1:] for k in _ids(fr)] or (heavy and _rows(fr, names) != [bins[k] for k in _ids(fr)]):
-                                return {"mismatch": True, **cur, "api": api, "impl_rows": _rows(fr, names), "labels": _ids(fr),
-                                        "note": "returned rows are not the bin-table rows their labels name"}
+                                problems.append({"mismatch": True, **cur, "api": api, "impl_rows": _rows(fr, names), "labels": _ids(fr),
+                                        "note": "returned rows are not the bin-table rows their labels name"})
                     if not heavy:
                         continue
                     if form == "ucsc":
@@ -207,16 +212,16 @@ def _table(case):
                     nq += 1
                     rec("ids", c, s, e, form, "bins().fetch", _ids(fb), ids=_ids(fb))
                     if _rows(fb, names) != [bins[k] for k in _ids(fb) if 0 <= k < len(bins)] or _ids(fb) != list(range(lo, max(lo, hi))):
-                        return {"mismatch": True, **cur, "api": "bins().fetch", "impl_rows": _rows(fb, names), "labels": _ids(fb),
-                                "extent": [lo, hi], "note": "bins().fetch(region) is not rows extent[0]..extent[1]-1 of the bin table"}
+                        problems.append({"mismatch": True, **cur, "api": "bins().fetch", "impl_rows": _rows(fb, names), "labels": _ids(fb),
+                                "extent": [lo, hi], "note": "bins().fetch(region) is not rows extent[0]..extent[1]-1 of the bin table"})
                     fp = impl(sel_px.fetch, reg)
                     nq += 1
                     rows = [[int(a), int(b), int(v)] for a, b, v in zip(fp["bin1_id"], fp["bin2_id"], fp["count"])]
                     rec("px", c, s, e, form, "pixels().fetch", rows, rows=rows)
                     lab = _ids(fp)
                     if len(lab) != len(rows) or any(not (0 <= k < len(pixels)) or pixels[k] != r for k, r in zip(lab, rows)):
-                        return {"mismatch": True, **cur, "api": "pixels().fetch", "impl_rows": rows, "labels": lab,
-                                "note": "carried index is not the record's position in the pixel table"}
+                        problems.append({"mismatch": True, **cur, "api": "pixels().fetch", "impl_rows": rows, "labels": lab,
+                                "note": "carried index is not the record's position in the pixel table"})
             # two-region matrix fetches == the index-slice query on the two extents
             pairs = case.get("pairs") or []
             boxes, got = [], []
@@ -231,18 +236,18 @@ def _table(case):
                 m = impl(lambda: np.asarray(mat.fetch(r1, r2)))
                 nq += 1
                 if m.shape != (max(a1 - a0, 0), max(b1 - b0, 0)):
-                    return {"mismatch": True, **cur, "impl_shape": list(m.shape), "extents": [[a0, a1], [b0, b1]],
-                            "note": "shape is not (extent1 length, extent2 length)"}
+                    problems.append({"mismatch": True, **cur, "impl_shape": list(m.shape), "extents": [[a0, a1], [b0, b1]],
+                            "note": "shape is not (extent1 length, extent2 length)"})
                 boxes.append([a0, max(a0, a1), b0, max(b0, b1)])
                 got.append(m.tolist())
                 if i1 == i2 or (s1, e1, c1) == (s2, e2, c2):
                     m1 = impl(lambda: np.asarray(mat.fetch(r1)))
                     nq += 1
                     if m1.tolist() != m.tolist():
-                        return {"mismatch": True, **cur, "note": "fetch(r) differs from fetch(r, r)"}
+                        problems.append({"mismatch": True, **cur, "note": "fetch(r) differs from fetch(r, r)"})
         except ImplRaised as ex:
-            return {"mismatch": True, **(cur or {}), "impl_raised": ex.cls, "message": ex.msg, "where": ex.where,
-                    "note": "the implementation raised on an in-bounds region"}
+            problems.append({"mismatch": True, **(cur or {}), "impl_raised": ex.cls, "message": ex.msg, "where": ex.where,
+                             "note": "the implementation raised on an in-bounds region"})
         verdicts = drv().ask("C04.judge", bins=bins, pixels=pixels, obs=obs)
         for ok, m in zip(verdicts, meta):
             if not ok:
@@ -250,6 +255,8 @@ def _table(case):
                 return {"mismatch": True, **m, "spec": ex,
                         "note": "selection is not exactly the bins of that chromosome overlapping the range "
                                 "(empty range: at most the one bin containing the position)"}
+        if problems:
+            return problems[0]
         if boxes:
             want = drv().ask("C04.matrix", pixels=pixels, symm=True, boxes=boxes)
             for (i1, i2), bx, g, w in zip(pairs, boxes, got, want):
@@ -463,7 +470,7 @@ def cases(tier, rng):
         for bins in all_segmentations(top_len, n):
             lens = chrom_lens(bins)
             full = n == 1 or max(lens) <= 3
-            stride = 1 if full else (2 if max(lens) <= 4 else 8)
+            stride = 1 if full else (2 if max(lens) <= 4 else 12)
             yield "table", table_case(bins, stride=stride, salt=k, npairs=10 if full else 5)
             yield "extent_unit", {"bins": bins}
             k += 1
